@@ -69,6 +69,11 @@ func simpleDoc(r *sim.Rand) pdfw.DocSpec {
 	if r.Pct(20) {
 		sp.TextOps = 1
 	}
+	if r.Pct(4) {
+		// a long document (anything an implementation does per so-many pages happens here)
+		sp.Pages = 17 + r.Intn(30)
+		sp.Lines = 1 + r.Intn(2)
+	}
 	sp.BlankPages = r.Pct(30)
 	sp.Headings = r.Pct(40)
 	sp.Superscripts = r.Pct(25)
